@@ -132,9 +132,23 @@ def utf8_gen(tier):
     def gen():
         n = 0
         L = 4 if tier == "thorough" else 3
-        for l in range(0, L + 1):
-            for t in itertools.product(U16, repeat=l):
-                b = bytes(t)
+        def inputs():
+            for l in range(0, L + 1):
+                for t in itertools.product(U16, repeat=l):
+                    yield bytes(t)
+            # well-formed text around the edges of every encoding length (1, 2, 3 and 4 bytes; every lead byte range of 4-byte forms)
+            cps = [0x41, 0x7f, 0x80, 0x7ff, 0x800, 0xfff, 0x1000, 0xcfff, 0xd000, 0xd7ff, 0xe000, 0xfffd, 0xffff, 0x10000, 0x3ffff, 0x40000, 0x7ffff, 0x80000,
+                   0xbffff, 0xc0000, 0xfffff, 0x100000, 0x10fffe, 0x10ffff]
+            for c in cps:
+                e = chr(c).encode("utf-8", "surrogatepass")
+                yield e
+                yield b"a" + e + b"b"
+                yield e + e
+            for c1 in cps[::3]:
+                for c2 in cps[1::3]:
+                    yield chr(c1).encode("utf-8", "surrogatepass") + b"-" + chr(c2).encode("utf-8", "surrogatepass")
+        for b in inputs():
+            if True:
                 ops = ["isolate", op_ctx(0, True), op_setvar("B", "s" + b.hex()),
                        op_run("import utf8; u = utf8(b); n = u.count(); rs = u.rawsize(); st = u.string(); em = u.empty();")]
                 for p in UPOS:
